@@ -1,6 +1,6 @@
 (* Entry.v — named entry points: sx case -> sx result.  Used by the extracted
    driver and by the in-kernel replays (vm_compute). *)
-From WD Require Import Base LetterId Wire Protocol Conn Color Matcher MatcherParse Show Session Decode Render Extract Args Doc.
+From WD Require Import Base LetterId Wire Protocol Conn Color Matcher MatcherParse Show Session Decode Render Extract Args Doc DocLay.
 
 Definition e_n2l (a : sx) : sx :=
   match a with
@@ -286,19 +286,29 @@ Definition e_splitcmd (a : sx) : sx :=
 
 (* (documented expression, messages) -> wf, texts for 0/1/2 blanks, denotation, what the parsed
    and simplified text selects (per layout), what simplify (elab e) selects *)
+Definition e_doc_body (t : dtop) (ms : list vmsg) (lay : list nat) : sx :=
+  let texts := map (fun k => Doc.render k t) [0; 1; 2]%nat ++ [render_l lay t] in
+  SL [sx_bool (wf_top t);
+      SL (map SS texts);
+      SL (map (fun v => sx_bool (Doc.denote t v)) ms);
+      SL (map (fun tx => sx_res (fun m => SL (map (fun v => sx_bool (matches m (VM v))) ms)) (parse_simplify tx)) texts);
+      SL (map (fun v => sx_bool (matches (simplify (elab t)) (VM v))) ms);
+      SL (map (fun tx => sx_res (fun m => SL [SS (mshow false (simplify m)); SS (mshow false (simplify (elab t)))]) (parse tx)) texts);
+      SL (map (fun v => SL [sx_bool (side_ok t v); SL (map SZ (side_shapes t v))]) ms)].
+
+(* the last text is written with an independent amount of white space at every strippable position
+   (DocLay.render_l driven by the numbers given) *)
 Definition e_doc (a : sx) : sx :=
   match a with
   | SL [e; SL msgs] =>
       match get_dtop e, get_list get_vmsg msgs with
-      | Some t, Some ms =>
-          let texts := map (fun k => Doc.render k t) [0; 1; 2]%nat in
-          SL [sx_bool (wf_top t);
-              SL (map SS texts);
-              SL (map (fun v => sx_bool (Doc.denote t v)) ms);
-              SL (map (fun tx => sx_res (fun m => SL (map (fun v => sx_bool (matches m (VM v))) ms)) (parse_simplify tx)) texts);
-              SL (map (fun v => sx_bool (matches (simplify (elab t)) (VM v))) ms);
-              SL (map (fun tx => sx_res (fun m => SL [SS (mshow false (simplify m)); SS (mshow false (simplify (elab t)))]) (parse tx)) texts)]
+      | Some t, Some ms => e_doc_body t ms []
       | _, _ => sx_err
+      end
+  | SL [e; SL msgs; SL lay] =>
+      match get_dtop e, get_list get_vmsg msgs, get_list get_z lay with
+      | Some t, Some ms, Some l => e_doc_body t ms (map Z.to_nat l)
+      | _, _, _ => sx_err
       end
   | _ => sx_err
   end.
